@@ -18,6 +18,14 @@ CHECKS = [
          technique='TLC on PTQueue with QuitAndResume (transcription of _recursive_restore_prob_order / is_parent_around) over all cut points and cycles; real save/--load cycles through configparser text validated by TrPTQ (C08 clauses) and TrPTQ_I',
          text='All grammars x all cut points x up to 2 cycles model-checked; every (grammar, cut sequence) replayed on the real queue with the saved float going through the real config text round trip; bag/rank formulation so ties are free.',
          note='As C01. Session-level parts (CrackingSession loop, UUID refusal) are exercised by the Session checks (C12/C15) once built.'),
+    dict(pid='C04', cat=MC, design='5/C04',
+         technique='TLA+ transcription of _recursive_guesses (ExpandDefs.tla) model-checked by TLC against the declarative product for every pre-terminal shape in the catalogue; the catalogue is instantiated as a real ruleset; every real create_guesses() call is validated by TLC against TrExpand (bag equality with the product, count = lines, equal file probabilities) and against the I-layer line by line',
+         text='Every pre-terminal of the model space and of generated rulesets (spaces, non-ASCII, non-BMP, multi-character upper-casings, multi-words) is expanded by the real code and judged by the TLA+ product definition.',
+         note='Mask letter U means str.upper() (table exported from Python). For Markov pre-terminals the level string set is judged by C10; C04 checks count/limit handling on it.'),
+    dict(pid='C09', cat=MC, design='5/C09',
+         technique='TLC on Expand.tla (session limit loop over create_guesses, invariants LimitExact/PrefixSoFar for all runs x all N in bound); real CrackingSession.run(limit=N) and pcfg_guesser.py subprocess runs validated by TrExpand (prefix, length, stdout = guess stream)',
+         text='The limit arithmetic (falsy-0 test, == 0 vs <= 0, per-pre-terminal accounting) is exhaustively checked on the model; the real tool is run for N inside/at/after pre-terminals and Markov levels and its stdout compared line for line.',
+         note='CLI runs keep stdin an open pipe (stdin conditions are C12). Only N >= 1 and loadable rulesets as quantified.'),
 ]
 
 NOT_YET = {
